@@ -3,3 +3,4 @@ import CatVerif.Gen.Source
 import CatVerif.Model.Pure
 import CatVerif.Model.Fsm
 import CatVerif.Model.Api
+import CatVerif.Proofs.Frame
